@@ -18,7 +18,7 @@ SPEC = {
                    "PyMatterSim.neighbors.read_neighbors:read_neighbors"],
     "floors": {"nnearest_set": 800, "cutoff_set": 800, "typecut_set": 800, "order": 1500, "symmetry": 100,
                "reader": 300, "eof": 100, "inclusive_boundary": 20, "hostile_files": 30,
-               "file_replaced_with_preserved_time_stamp": 8},
+               "file_replaced_with_preserved_time_stamp": 8, "hostile_files_with_constant_coordination": 8},
     "rule": ("{gas, perturbed lattice, cluster, hard-core} x {2D,3D} x {orthogonal, triclinic} x masks x N_nn 1..n-1 x "
              "r_cut at random quantiles and exactly on a pair distance (power-of-two boxes) x type-pair cutoff matrices "
              "K 1..3 (symmetric and asymmetric) x 1..4 frames, each file read back frame by frame on one handle with "
@@ -326,13 +326,16 @@ def hostile_file(ctx, rng, wd):
     frames = int(rng.integers(1, 5))
     is_list = rng.random() < 0.6
     fn = os.path.join(wd, "hostile.dat")
+    same_cn = int(rng.integers(1, min(n, 9))) if rng.random() < 0.35 else None       # a regular table: the same coordination number in every row (rows still shuffled)
+    if same_cn is not None:
+        ctx.count("hostile_files_with_constant_coordination")
 
     def write():
         with open(fn, "w") as f:
             for _ in range(frames):
                 f.write("id     cn     neighborlist\n" if is_list else rng.choice(["id   cn   facearealist\n", "id cn edgelengthlist\n"]))
                 for i in rng.permutation(n):
-                    cn = int(rng.integers(0, min(n, 9)))
+                    cn = same_cn if same_cn is not None else int(rng.integers(0, min(n, 9)))
                     if is_list:
                         vals = [str(int(v) + 1) for v in rng.choice(n, size=cn, replace=False)]
                     else:
